@@ -37,6 +37,14 @@ Qed.
 Lemma Ok_inj' {A} (x y : A) : Ok x = Ok y -> x = y.
 Proof. intro H. injection H as H. exact H. Qed.
 
+Lemma nth_digit_pos' account i : forallb is_ascii_digit account = true -> List.length account = 10%nat -> (i < 10)%nat ->
+  py_index account (Z.of_nat i) = Ok (nth i account 0%N) /\ is_ascii_digit (nth i account 0%N) = true
+  /\ pos (S i) (digs account) = dv (nth i account 0%N).
+Proof.
+  intros Hd Hl Hi. split; [apply (py_index_nth account i); lia|]. split; [apply nth_digit; [exact Hd|lia]|].
+  unfold pos, digs. cbn [Nat.sub]. rewrite Nat.sub_0_r. change 0%Z with (dv 0%N) at 1. rewrite map_nth. reflexivity.
+Qed.
+
 Section German.
 Variable nd : list (N * N).
 Hypothesis ND : nd_ok nd = true.
@@ -193,6 +201,54 @@ Proof using All.
   rewrite (str_eq_digit r _ (reconcile_range r Er) Hd), Hp. reflexivity.
 Qed.
 End Std.
+
+
+(* ---- the template with any get_digits / summand hooks: what is needed is what they return ----------------------- *)
+Section Gen.
+Variable g : gclass.
+Variable c : nat.
+Variables pa pb : Z.
+Variable account0 account digits : text.
+Variables Sm R : Z.
+Hypothesis Hadj : adjust g account0 = account.
+Hypothesis Hposof : positions_of g account = Ok (pa, pb, Z.of_nat c).
+Hypothesis Hc : (1 <= c <= 10)%nat.
+Hypothesis Hdigits : get_digits nd 10 g account = Ok digits.
+Hypothesis Hsum : wsum_go nd g digits (cycle_to (g_weights g) [] (List.length digits)) = Ok Sm.
+Hypothesis Hrem : remainder_of nd g (wadj g Sm) = Ok R.
+Hypothesis HR : (0 <= std_checksum g R <= 99)%Z.
+Hypothesis Hdig : forallb is_ascii_digit account = true.
+Hypothesis Hlen : List.length account = 10%nat.
+
+Lemma gen_compute_core :
+  compute_core nd 10 g account0 = (do r <- reconcile g (std_checksum g R) R; Ok (str_of_Z r, R)).
+Proof using All.
+  unfold compute_core. rewrite Hadj, Hdigits. cbn [bind]. unfold weighted_sum. rewrite Hsum. cbn [bind].
+  fold (wadj g Sm). rewrite Hrem. cbn [bind]. fold (std_checksum g R). reflexivity.
+Qed.
+
+Lemma gen_reconcile_range r : reconcile g (std_checksum g R) R = Ok r -> (0 <= r <= 99)%Z.
+Proof using All.
+  pose proof HR as C. unfold reconcile.
+  destruct (g_rec g).
+  - intro H. apply Ok_inj' in H. subst r. destruct (10 <=? std_checksum g R)%Z; lia.
+  - destruct (Z.eqb R 0); [intro H; apply Ok_inj' in H; subst r; lia|].
+    destruct (Z.eqb R 1); [discriminate|]. intro H. apply Ok_inj' in H. subst r. lia.
+  - intro H. apply Ok_inj' in H. subst r. destruct (Z.eqb (std_checksum g R) 10); [lia|]. destruct (10 <=? std_checksum g R)%Z; lia.
+  - destruct (Z.eqb (std_checksum g R) 10); [discriminate|]. intro H. apply Ok_inj' in H. subst r. lia.
+Qed.
+
+Theorem gen_validate :
+  validate_default nd 10 g account0 = (do r <- reconcile g (std_checksum g R) R; Ok (pos c (digs account) =? r)%Z).
+Proof using All.
+  unfold validate_default. cbv zeta. rewrite gen_compute_core.
+  destruct (reconcile g (std_checksum g R) R) as [r|x|x] eqn:Er; cbn [bind]; try reflexivity.
+  rewrite Hadj, Hposof. cbn [bind].
+  destruct (nth_digit_pos' account (c - 1) Hdig Hlen ltac:(lia)) as (Hi & Hd & Hp).
+  unfold char_at. replace (Z.of_nat c - 1)%Z with (Z.of_nat (c - 1)) by lia. rewrite Hi. cbn [bind fst]. f_equal.
+  rewrite (str_eq_digit r _ (gen_reconcile_range r Er) Hd). replace (S (c - 1)) with c in Hp by lia. rewrite Hp. reflexivity.
+Qed.
+End Gen.
 
 (* ---- the rule for the result ------------------------------------------------------------------------------ *)
 Definition result_of (g : gclass) : option result :=
@@ -757,5 +813,319 @@ Proof using All.
   set (qq := iter_cross 4 (tsum CrossSum w21 (rev (span 1 9 (digs account))))) in *.
   assert (Hq : (0 <= qq <= 9)%Z) by (unfold qq; rewrite <- ES; exact HRr).
   destruct (Z.eqb_spec qq 0) as [->|Hne]; [reflexivity|]. replace (10 <=? 10 - qq)%Z with false by lia. reflexivity.
+Qed.
+
+(* ---- 61: with an 8 at position 9, positions 9 and 10 are evaluated too --------------------------------------------- *)
+Definition ok61 (g : gclass) : bool :=
+  (let '(pa, pb, pc) := g_positions g in (pa =? 1)%Z && (pb =? 7)%Z && (pc =? 8)%Z)
+  && k_pos_static (g_pos g) && k_adj_id (g_adj g)
+  && match g_digits g with D61 => true | _ => false end
+  && k_rem_mod (g_rem g) && g_reverse g && k_wsum_plain (g_wsum g)
+  && match g_summand g with SDigitSum => true | _ => false end
+  && zlist_eqb (g_weights g) [2; 1]%Z && (g_modulus g =? 10)%Z
+  && match g_minuend g with Some mm => (mm =? 10)%Z | None => false end
+  && match g_rec g with RecDefault => true | _ => false end
+  && match g_validate g with VDefault => true | _ => false end.
+
+Theorem m61_method g account :
+  ok61 g = true -> forallb is_ascii_digit account = true -> List.length account = 10%nat ->
+  verdict (validate1 nd tbl 10 g account)
+  = Some (let ds := digs account in
+          if (pos 9 ds =? 8)%Z
+          then (pos 8 ds =? (let r := (tsum CrossSum w21 (span 1 7 ds ++ [pos 9 ds; pos 10 ds]) mod 10)%Z in
+                             if (r =? 0)%Z then 0 else 10 - r))%Z
+          else std 1 7 8 w21 CrossSum 10 Minus10 ds).
+Proof using All.
+  intros H Hd Hl. unfold ok61 in H. repeat (apply andb_true_iff in H as [H ?]).
+  destruct (g_positions g) as [[pa pb] pc] eqn:Epos. repeat (apply andb_true_iff in H as [H ?]).
+  repeat match goal with X : (_ =? _)%Z = true |- _ => apply Z.eqb_eq in X end. subst pa pb pc.
+  destruct (g_pos g) eqn:Kpos; try discriminate. destruct (g_adj g) eqn:Kadj; try discriminate.
+  destruct (g_digits g) eqn:Kdig; try discriminate. destruct (g_rem g) eqn:Krem; try discriminate.
+  destruct (g_reverse g) eqn:Krev; try discriminate. destruct (g_wsum g) eqn:Kws; try discriminate.
+  destruct (g_summand g) eqn:Ksum; try discriminate. destruct (g_minuend g) as [mm|] eqn:Kmin; try discriminate.
+  destruct (g_rec g) eqn:Krec; try discriminate. destruct (g_validate g) eqn:Kv; try discriminate.
+  match goal with X : zlist_eqb (g_weights g) _ = true |- _ => apply zlist_eqb_eq in X; rename X into Kw end.
+  match goal with X : (mm =? 10)%Z = true |- _ => apply Z.eqb_eq in X; subst mm end.
+  match goal with X : g_modulus g = 10%Z |- _ => rename X into Kmod end.
+  unfold validate1. rewrite Kv.
+  destruct account as [|x1 [|x2 [|x3 [|x4 [|x5 [|x6 [|x7 [|x8 [|x9 [|x10 [|x11 rest]]]]]]]]]]]; try discriminate.
+  cbn [forallb] in Hd. repeat (apply andb_true_iff in Hd as [? Hd]).
+  set (account := [x1; x2; x3; x4; x5; x6; x7; x8; x9; x10]) in *.
+  assert (Hda : forallb is_ascii_digit account = true)
+    by (unfold account; cbn [forallb]; repeat match goal with X : is_ascii_digit _ = true |- _ => rewrite X; clear X end; reflexivity).
+  assert (Hadj : adjust g account = account) by (unfold adjust; rewrite Kadj; reflexivity).
+  assert (Hposof : positions_of g account = Ok (1%Z, 7%Z, Z.of_nat 8)) by (unfold positions_of; rewrite Kpos, Epos; reflexivity).
+  assert (Kq : cross_of (g_summand g) = Some CrossSum) by (rewrite Ksum; reflexivity).
+  set (digits := if N.eqb x9 56 then [x10; x9; x7; x6; x5; x4; x3; x2; x1] else [x7; x6; x5; x4; x3; x2; x1]).
+  assert (Hdigits : get_digits nd 10 g account = Ok digits).
+  { unfold get_digits, digits_default. rewrite Hposof. cbn [bind]. rewrite Krev, Kdig. unfold digits.
+    change (len account) with 10%Z. cbn [Z.eqb Pos.eqb negb Z.sub Z.leb Z.compare Pos.compare Pos.compare_cont andb Z.opp Z.add Z.pos_sub Z.succ_double Z.pred_double Z.double Pos.pred_double].
+    cbn [bind].
+    change (py_slice account 0 7) with [x1; x2; x3; x4; x5; x6; x7].
+    change (py_index account 8) with (Ok x9). cbn [bind].
+    change (py_slice_from account 8) with [x9; x10].
+    destruct (N.eqb x9 56); reflexivity. }
+  assert (Ddigits : forallb is_ascii_digit digits = true).
+  { unfold account in Hda. cbn [forallb] in Hda. repeat (apply andb_true_iff in Hda as [? Hda]).
+    unfold digits. destruct (N.eqb x9 56); cbn [forallb];
+      repeat match goal with X : is_ascii_digit _ = true |- _ => rewrite X; clear X end; reflexivity. }
+  assert (Hw1 : forallb (fun w => (0 <=? w) && (w <=? 10))%Z (cycle_to (g_weights g) [] (List.length digits)) = true)
+    by (apply cycle_to_forallb; [rewrite Kw; reflexivity|reflexivity]).
+  pose proof (wsum_go_tsum g CrossSum Kq digits _ Ddigits Hw1) as Hsum.
+  set (Sm := tsum CrossSum (cycle_to (g_weights g) [] (List.length digits)) (map dv digits)) in *.
+  set (R := (Sm mod 10)%Z).
+  assert (Hrem : remainder_of nd g (wadj g Sm) = Ok R)
+    by (unfold remainder_of, wadj; rewrite Krem, Kws, Kmod; reflexivity).
+  assert (HRr : (0 <= R < 10)%Z) by (apply Z.mod_pos_bound; lia).
+  assert (HR : (0 <= std_checksum g R <= 99)%Z) by (unfold std_checksum; rewrite Kmin; lia).
+  rewrite (gen_validate g 8 1 7 account account digits Sm R Hadj Hposof ltac:(lia) Hdigits Hsum Hrem HR Hda eq_refl).
+  unfold std_checksum, reconcile. rewrite Kmin, Krec. cbn [bind verdict]. cbv zeta. f_equal.
+  change (pos 9 (digs account)) with (dv x9). change (pos 8 (digs account)) with (dv x8). change (pos 10 (digs account)) with (dv x10).
+  assert (E9 : N.eqb x9 56 = (dv x9 =? 8)%Z).
+  { unfold account in Hda. cbn [forallb] in Hda. repeat (apply andb_true_iff in Hda as [? Hda]).
+    match goal with X : is_ascii_digit x9 = true |- _ => unfold is_ascii_digit, c0, c9 in X end. unfold dv. lia. }
+  unfold R, Sm, digits. rewrite Kw, E9.
+  destruct (dv x9 =? 8)%Z.
+  - change (cycle_to [2; 1]%Z [] (List.length [x10; x9; x7; x6; x5; x4; x3; x2; x1])) with [2; 1; 2; 1; 2; 1; 2; 1; 2]%Z.
+    unfold span, digs, account, w21. cbn [map firstn skipn Nat.sub Nat.add app tsum].
+    set (T := (term CrossSum 2 (dv x10) + (term CrossSum 1 (dv x9) + (term CrossSum 2 (dv x7) + (term CrossSum 1 (dv x6)
+               + (term CrossSum 2 (dv x5) + (term CrossSum 1 (dv x4) + (term CrossSum 2 (dv x3) + (term CrossSum 1 (dv x2)
+               + (term CrossSum 2 (dv x1) + 0)))))))))%Z).
+    set (T' := (term CrossSum 2 (dv x1) + (term CrossSum 1 (dv x2) + (term CrossSum 2 (dv x3) + (term CrossSum 1 (dv x4)
+               + (term CrossSum 2 (dv x5) + (term CrossSum 1 (dv x6) + (term CrossSum 2 (dv x7) + (term CrossSum 1 (dv x9)
+               + (term CrossSum 2 (dv x10) + 0)))))))))%Z).
+    assert (ET : T = T') by (unfold T, T'; lia). rewrite <- ET.
+    destruct (Z.eqb_spec (T mod 10) 0) as [->|Hne]; [reflexivity|]. replace (10 <=? 10 - T mod 10)%Z with false by lia. reflexivity.
+  - change (cycle_to [2; 1]%Z [] (List.length [x7; x6; x5; x4; x3; x2; x1])) with [2; 1; 2; 1; 2; 1; 2]%Z.
+    unfold std, expected, span, pos, digs, account, w21. cbn [map firstn skipn Nat.sub Nat.add rev app tsum nth].
+    set (T := (term CrossSum 2 (dv x7) + (term CrossSum 1 (dv x6) + (term CrossSum 2 (dv x5) + (term CrossSum 1 (dv x4)
+               + (term CrossSum 2 (dv x3) + (term CrossSum 1 (dv x2) + (term CrossSum 2 (dv x1) + 0)))))))%Z).
+    destruct (Z.eqb_spec (T mod 10) 0) as [->|Hne]; [reflexivity|]. replace (10 <=? 10 - T mod 10)%Z with false by lia. reflexivity.
+Qed.
+
+(* ---- 76: leading zeros of the evaluated positions are dropped; equivalence except for remainder 10 --------------- *)
+Lemma lstrip0_split s : exists k, s = repeat 48%N k ++ lstrip0 s.
+Proof.
+  induction s as [|x s IH]; [exists 0%nat; reflexivity|]. cbn [lstrip0]. unfold c0.
+  destruct (N.eqb_spec x 48) as [->|Hne]; [|exists 0%nat; reflexivity].
+  destruct IH as [k Hk]. exists (S k). cbn [repeat app]. f_equal. exact Hk.
+Qed.
+
+Lemma tsum_plain_all_zeros : forall ws k, tsum Plain ws (repeat 0%Z k) = 0%Z.
+Proof.
+  induction ws as [|w ws IH]; intros [|k]; cbn [repeat tsum term]; try reflexivity. rewrite IH. lia.
+Qed.
+
+Lemma tsum_plain_zeros : forall ws xs k, tsum Plain ws (xs ++ repeat 0%Z k) = tsum Plain ws xs.
+Proof.
+  induction ws as [|w ws IH]; intros xs k.
+  - destruct (xs ++ repeat 0%Z k); destruct xs; reflexivity.
+  - destruct xs as [|x xs]; cbn [app].
+    + rewrite tsum_plain_all_zeros. reflexivity.
+    + cbn [tsum]. rewrite IH. reflexivity.
+Qed.
+
+Lemma cycle_prefix {A} (ws : list A) : forall n m cur, (n <= m)%nat -> cycle_to ws cur n = firstn n (cycle_to ws cur m).
+Proof.
+  induction n as [|n IH]; intros m cur H; [reflexivity|]. destruct m as [|m]; [lia|]. cbn [cycle_to].
+  destruct cur as [|x r]; [destruct ws as [|x r]; [reflexivity|]|]; cbn [firstn]; f_equal; apply IH; lia.
+Qed.
+
+Definition ok76 (g : gclass) : bool :=
+  (let '(pa, pb, pc) := g_positions g in (pa =? 2)%Z && (pb =? 7)%Z && (pc =? 8)%Z)
+  && k_pos_static (g_pos g) && k_adj_id (g_adj g)
+  && match g_digits g with D76 => true | _ => false end
+  && k_rem_mod (g_rem g) && g_reverse g && k_wsum_plain (g_wsum g)
+  && match g_summand g with SPlain => true | _ => false end
+  && zlist_eqb (g_weights g) [2; 3; 4; 5; 6; 7; 8]%Z && (g_modulus g =? 11)%Z
+  && match g_minuend g with None => true | _ => false end
+  && match g_rec g with RecDefault => true | _ => false end
+  && match g_validate g with V76 => true | _ => false end.
+
+Theorem m76_partial g account :
+  ok76 g = true -> forallb is_ascii_digit account = true -> List.length account = 10%nat ->
+  rem_of 2 7 [2; 3; 4; 5; 6; 7]%Z Plain 11 (digs account) <> 10%Z ->
+  verdict (validate1 nd tbl 10 g account)
+  = Some (existsb (Z.eqb (pos 1 (digs account))) [0; 4; 6; 7; 8; 9]%Z
+          && std 2 7 8 [2; 3; 4; 5; 6; 7]%Z Plain 11 Itself (digs account)).
+Proof using All.
+  intros H Hd Hl Hrem10. unfold ok76 in H. repeat (apply andb_true_iff in H as [H ?]).
+  destruct (g_positions g) as [[pa pb] pc] eqn:Epos. repeat (apply andb_true_iff in H as [H ?]).
+  repeat match goal with X : (_ =? _)%Z = true |- _ => apply Z.eqb_eq in X end. subst pa pb pc.
+  destruct (g_pos g) eqn:Kpos; try discriminate. destruct (g_adj g) eqn:Kadj; try discriminate.
+  destruct (g_digits g) eqn:Kdig; try discriminate. destruct (g_rem g) eqn:Krem; try discriminate.
+  destruct (g_reverse g) eqn:Krev; try discriminate. destruct (g_wsum g) eqn:Kws; try discriminate.
+  destruct (g_summand g) eqn:Ksum; try discriminate. destruct (g_minuend g) as [mm|] eqn:Kmin; try discriminate.
+  destruct (g_rec g) eqn:Krec; try discriminate. destruct (g_validate g) eqn:Kv; try discriminate.
+  match goal with X : zlist_eqb (g_weights g) _ = true |- _ => apply zlist_eqb_eq in X; rename X into Kw end.
+  match goal with X : g_modulus g = 11%Z |- _ => rename X into Kmod end.
+  unfold validate1. rewrite Kv.
+  destruct (first_digit account Hd Hl) as (Hi0 & Hd0 & Hp0). rewrite Hi0. cbn [bind]. unfold int_c.
+  rewrite (int_char_digit nd ND _ Hd0). cbn [bind]. rewrite Hp0.
+  assert (Emem : mem_Z (dv (nth 0 account 0%N)) [0; 4; 6; 7; 8; 9]%Z = existsb (Z.eqb (dv (nth 0 account 0%N))) [0; 4; 6; 7; 8; 9]%Z)
+    by reflexivity.
+  rewrite Emem. destruct (existsb (Z.eqb (dv (nth 0 account 0%N))) [0; 4; 6; 7; 8; 9]%Z); cbn [negb andb]; [|reflexivity].
+  (* the template on the stripped digits *)
+  assert (Hadj : adjust g account = account) by (unfold adjust; rewrite Kadj; reflexivity).
+  assert (Hposof : positions_of g account = Ok (2%Z, 7%Z, Z.of_nat 8)) by (unfold positions_of; rewrite Kpos, Epos; reflexivity).
+  set (sfx := sl 1 7 account).
+  assert (Hsd : forallb is_ascii_digit sfx = true) by (apply sl_forallb; exact Hd).
+  set (digits := rev (lstrip0 sfx)).
+  assert (Hdigits : get_digits nd 10 g account = Ok digits).
+  { unfold get_digits, digits_default. rewrite Hposof. cbn [bind]. unfold len. rewrite Hl.
+    change (Z.of_nat 10) with 10%Z. cbn [Z.eqb Pos.eqb negb Z.sub Z.leb Z.compare Pos.compare Pos.compare_cont andb Z.opp Z.add Z.pos_sub Z.succ_double Z.pred_double Z.double Pos.pred_double].
+    cbn [bind]. rewrite Krev, Kdig. cbn [bind].
+    rewrite py_slice_sub by (unfold len; lia). change (Z.to_nat (7 - 1)) with 6%nat. change (Z.to_nat 1) with 1%nat.
+    change (firstn 6 (skipn 1 account)) with sfx. unfold rstrip0. rewrite rev_involutive. reflexivity. }
+  destruct (lstrip0_split sfx) as [k Hk].
+  assert (Hsl : forallb is_ascii_digit (lstrip0 sfx) = true).
+  { rewrite Hk in Hsd. rewrite forallb_app in Hsd. apply andb_true_iff in Hsd as [_ Hsd]. exact Hsd. }
+  assert (Ddigits : forallb is_ascii_digit digits = true).
+  { unfold digits. rewrite forallb_forall in *. intros x Hx. apply in_rev in Hx. exact (Hsl x Hx). }
+  assert (Kq : cross_of (g_summand g) = Some Plain) by (rewrite Ksum; reflexivity).
+  assert (Hw1 : forallb (fun w => (0 <=? w) && (w <=? 10))%Z (cycle_to (g_weights g) [] (List.length digits)) = true)
+    by (apply cycle_to_forallb; [rewrite Kw; reflexivity|reflexivity]).
+  pose proof (wsum_go_tsum g Plain Kq digits _ Ddigits Hw1) as Hsum.
+  (* the sum over the stripped digits is the sum over all six *)
+  assert (Lsfx : List.length sfx = 6%nat) by (unfold sfx; rewrite sl_length by lia; reflexivity).
+  assert (Ldig : (List.length digits <= 6)%nat).
+  { unfold digits. rewrite rev_length. rewrite Hk in Lsfx. rewrite app_length, repeat_length in Lsfx. lia. }
+  assert (ES : tsum Plain (cycle_to (g_weights g) [] (List.length digits)) (map dv digits)
+               = tsum Plain [2; 3; 4; 5; 6; 7]%Z (rev (span 2 7 (digs account)))).
+  { rewrite Kw. rewrite (cycle_prefix [2; 3; 4; 5; 6; 7; 8]%Z _ 6 [] Ldig).
+    change (cycle_to [2; 3; 4; 5; 6; 7; 8]%Z [] 6) with [2; 3; 4; 5; 6; 7]%Z.
+    rewrite <- (map_length dv digits), tsum_firstn.
+    assert (Espan : span 2 7 (digs account) = map dv sfx).
+    { unfold span, sfx, sl, digs. rewrite <- firstn_map, <- skipn_map. reflexivity. }
+    rewrite Espan.
+    assert (Erev : rev (map dv sfx) = map dv digits ++ repeat 0%Z k).
+    { rewrite Hk at 1. rewrite map_app, rev_app_distr, <- map_rev. fold digits. f_equal.
+      clear. induction k as [|k IH]; [reflexivity|]. cbn [repeat map rev]. rewrite IH. change (dv 48) with 0%Z.
+      clear. induction k as [|k IH]; [reflexivity|]. cbn [repeat app]. f_equal. exact IH. }
+    rewrite Erev, tsum_plain_zeros. reflexivity. }
+  set (Sm := tsum Plain (cycle_to (g_weights g) [] (List.length digits)) (map dv digits)) in *.
+  set (R := (Sm mod 11)%Z).
+  assert (Hrem : remainder_of nd g (wadj g Sm) = Ok R) by (unfold remainder_of, wadj; rewrite Krem, Kws, Kmod; reflexivity).
+  assert (HRr : (0 <= R < 11)%Z) by (apply Z.mod_pos_bound; lia).
+  assert (HR : (0 <= std_checksum g R <= 99)%Z) by (unfold std_checksum; rewrite Kmin; lia).
+  rewrite (gen_validate g 8 2 7 account account digits Sm R Hadj Hposof ltac:(lia) Hdigits Hsum Hrem HR Hd Hl).
+  unfold std_checksum, reconcile. rewrite Kmin, Krec. cbn [bind verdict]. f_equal.
+  unfold std, expected. fold (rem_of 2 7 [2; 3; 4; 5; 6; 7]%Z Plain 11 (digs account)).
+  assert (ER : R = rem_of 2 7 [2; 3; 4; 5; 6; 7]%Z Plain 11 (digs account)) by (unfold R, rem_of; rewrite ES; reflexivity).
+  rewrite <- ER in *. replace (R =? 10)%Z with false by lia. replace (10 <=? R)%Z with false by lia. reflexivity.
+Qed.
+
+(* ---- 24 ---------------------------------------------------------------------------------------------------------------- *)
+Lemma wsum_go_sum24 g : g_summand g = SPlusW11 ->
+  forall digits ws, forallb is_ascii_digit digits = true -> wsum_go nd g digits ws = Ok (sum24 ws (map dv digits)).
+Proof using ND.
+  intro Hs. induction digits as [|x digits IH]; intros [|w ws] Hd; cbn [wsum_go sum24 map]; try reflexivity.
+  cbn [forallb] in Hd. apply andb_true_iff in Hd as [Hx Hd]. unfold int_c. rewrite (int_char_digit nd ND x Hx). cbn [bind].
+  unfold summand. rewrite Hs. cbn [bind]. rewrite (IH ws Hd). cbn [bind]. f_equal. f_equal. f_equal. lia.
+Qed.
+
+Lemma sum24_firstn : forall xs ws, sum24 (firstn (List.length xs) ws) xs = sum24 ws xs.
+Proof.
+  induction xs as [|x xs IH]; intros [|w ws]; cbn [List.length firstn sum24]; try reflexivity. rewrite IH. reflexivity.
+Qed.
+
+Lemma lstrip0_drop s : forallb is_ascii_digit s = true -> map dv (lstrip0 s) = drop_zeros (map dv s).
+Proof.
+  induction s as [|x s IH]; intro H; [reflexivity|]. cbn [forallb] in H. apply andb_true_iff in H as [Hx Hs].
+  cbn [lstrip0 map drop_zeros]. unfold c0. destruct (N.eqb_spec x 48) as [->|Hne].
+  - change (dv 48) with 0%Z. apply IH. exact Hs.
+  - assert (dv x <> 0%Z) by (unfold is_ascii_digit, c0, c9 in Hx; unfold dv; lia).
+    destruct (dv x) eqn:E; [congruence|cbn [map]; rewrite E; reflexivity|cbn [map]; rewrite E; reflexivity].
+Qed.
+
+Lemma lstrip0_digits s : forallb is_ascii_digit s = true -> forallb is_ascii_digit (lstrip0 s) = true.
+Proof.
+  intro H. destruct (lstrip0_split s) as [k Hk]. rewrite Hk in H. rewrite forallb_app in H.
+  apply andb_true_iff in H as [_ H]. exact H.
+Qed.
+
+Lemma lstrip0_length s : (List.length (lstrip0 s) <= List.length s)%nat.
+Proof. destruct (lstrip0_split s) as [k Hk]. rewrite Hk at 2. rewrite app_length. lia. Qed.
+
+Definition ok24 (g : gclass) : bool :=
+  (let '(pa, pb, pc) := g_positions g in (pa =? 1)%Z && (pb =? 9)%Z && (pc =? 10)%Z)
+  && k_pos_static (g_pos g) && k_adj_id (g_adj g)
+  && match g_digits g with D24 => true | _ => false end
+  && k_rem_mod (g_rem g) && negb (g_reverse g) && k_wsum_plain (g_wsum g)
+  && match g_summand g with SPlusW11 => true | _ => false end
+  && zlist_eqb (g_weights g) [1; 2; 3]%Z && (g_modulus g =? 10)%Z
+  && match g_minuend g with None => true | _ => false end
+  && match g_rec g with RecDefault => true | _ => false end
+  && match g_validate g with VDefault => true | _ => false end.
+
+Theorem m24_method g account :
+  ok24 g = true -> forallb is_ascii_digit account = true -> List.length account = 10%nat ->
+  verdict (validate1 nd tbl 10 g account) = Some (m24 (digs account)).
+Proof using All.
+  intros H Hd Hl. unfold ok24 in H. repeat (apply andb_true_iff in H as [H ?]).
+  destruct (g_positions g) as [[pa pb] pc] eqn:Epos. repeat (apply andb_true_iff in H as [H ?]).
+  repeat match goal with X : (_ =? _)%Z = true |- _ => apply Z.eqb_eq in X end. subst pa pb pc.
+  destruct (g_pos g) eqn:Kpos; try discriminate. destruct (g_adj g) eqn:Kadj; try discriminate.
+  destruct (g_digits g) eqn:Kdig; try discriminate. destruct (g_rem g) eqn:Krem; try discriminate.
+  destruct (g_reverse g) eqn:Krev; try discriminate. destruct (g_wsum g) eqn:Kws; try discriminate.
+  destruct (g_summand g) eqn:Ksum; try discriminate. destruct (g_minuend g) as [mm|] eqn:Kmin; try discriminate.
+  destruct (g_rec g) eqn:Krec; try discriminate. destruct (g_validate g) eqn:Kv; try discriminate.
+  match goal with X : zlist_eqb (g_weights g) _ = true |- _ => apply zlist_eqb_eq in X; rename X into Kw end.
+  match goal with X : g_modulus g = 10%Z |- _ => rename X into Kmod end.
+  unfold validate1. rewrite Kv.
+  assert (Hadj : adjust g account = account) by (unfold adjust; rewrite Kadj; reflexivity).
+  assert (Hposof : positions_of g account = Ok (1%Z, 9%Z, Z.of_nat 10)) by (unfold positions_of; rewrite Kpos, Epos; reflexivity).
+  set (body := sl 0 9 account).
+  assert (Hbd : forallb is_ascii_digit body = true) by (apply sl_forallb; exact Hd).
+  assert (Lb : List.length body = 9%nat) by (unfold body; rewrite sl_length by lia; reflexivity).
+  destruct (first_digit account Hd Hl) as (Hi0 & Hd0 & Hp0).
+  assert (Hb0 : nth 0 body 0%N = nth 0 account 0%N) by (unfold body; rewrite sl_nth by lia; reflexivity).
+  set (v := dv (nth 0 account 0%N)) in *.
+  set (body' := if mem_Z v [3; 4; 5; 6]%Z then skipn 1 body else if (v =? 9)%Z then skipn 3 body else body).
+  set (digits := lstrip0 body').
+  assert (Hb'd : forallb is_ascii_digit body' = true).
+  { unfold body'. destruct (mem_Z v [3; 4; 5; 6]%Z); [apply forallb_skipn'; exact Hbd|].
+    destruct (v =? 9)%Z; [apply forallb_skipn'; exact Hbd|exact Hbd]. }
+  assert (Hdigits : get_digits nd 10 g account = Ok digits).
+  { unfold get_digits, digits_default. rewrite Hposof. cbn [bind]. unfold len. rewrite Hl.
+    change (Z.of_nat 10) with 10%Z. cbn [Z.eqb Pos.eqb negb Z.sub Z.leb Z.compare Pos.compare Pos.compare_cont andb Z.opp Z.add Z.pos_sub Z.succ_double Z.pred_double Z.double Pos.pred_double].
+    cbn [bind]. rewrite Krev, Kdig.
+    rewrite py_slice_sub by (unfold len; lia). change (Z.to_nat (9 - 0)) with 9%nat. change (Z.to_nat 0) with 0%nat.
+    change (firstn 9 (skipn 0 account)) with body.
+    change (py_index body 0) with (py_index body (Z.of_nat 0)). rewrite (py_index_nth body 0) by lia. cbn [bind]. unfold int_c. rewrite Hb0, (int_char_digit nd ND _ Hd0). cbn [bind].
+    fold v. unfold digits, body'.
+    assert (S1 : py_slice_from body 1 = skipn 1 body).
+    { unfold py_slice_from, norm_idx, len. rewrite Lb. reflexivity. }
+    assert (S3 : py_slice_from body 3 = skipn 3 body).
+    { unfold py_slice_from, norm_idx, len. rewrite Lb. reflexivity. }
+    rewrite S1, S3. reflexivity. }
+  assert (Ddigits : forallb is_ascii_digit digits = true) by (apply lstrip0_digits; exact Hb'd).
+  pose proof (wsum_go_sum24 g Ksum digits (cycle_to (g_weights g) [] (List.length digits)) Ddigits) as Hsum.
+  set (Sm := sum24 (cycle_to (g_weights g) [] (List.length digits)) (map dv digits)) in *.
+  set (R := (Sm mod 10)%Z).
+  assert (Hrem : remainder_of nd g (wadj g Sm) = Ok R) by (unfold remainder_of, wadj; rewrite Krem, Kws, Kmod; reflexivity).
+  assert (HRr : (0 <= R < 10)%Z) by (apply Z.mod_pos_bound; lia).
+  assert (HR : (0 <= std_checksum g R <= 99)%Z) by (unfold std_checksum; rewrite Kmin; lia).
+  rewrite (gen_validate g 10 1 9 account account digits Sm R Hadj Hposof ltac:(lia) Hdigits Hsum Hrem HR Hd Hl).
+  unfold std_checksum, reconcile. rewrite Kmin, Krec. cbn [bind verdict]. f_equal.
+  replace (10 <=? R)%Z with false by lia.
+  unfold m24. cbv zeta. f_equal.
+  (* the spec's significant digits are the model's *)
+  assert (Espan : span 1 9 (digs account) = map dv body).
+  { unfold span, body, sl, digs. rewrite <- firstn_map, <- skipn_map. reflexivity. }
+  assert (Ldig : (List.length digits <= 9)%nat).
+  { unfold digits. pose proof (lstrip0_length body') as L1. unfold body' in *.
+    destruct (mem_Z v [3; 4; 5; 6]%Z); [rewrite skipn_length in L1; lia|].
+    destruct (v =? 9)%Z; [rewrite skipn_length in L1; lia|lia]. }
+  unfold R, Sm. rewrite Kw. rewrite (cycle_prefix [1; 2; 3]%Z _ 9 [] Ldig).
+  change (cycle_to [1; 2; 3]%Z [] 9) with [1; 2; 3; 1; 2; 3; 1; 2; 3]%Z.
+  rewrite <- (map_length dv digits), sum24_firstn.
+  unfold digits. rewrite (lstrip0_drop body' Hb'd). rewrite Espan, Hp0. fold v.
+  assert (Ebody : map dv body' = (if (3 <=? v) && (v <=? 6) then skipn 1 (map dv body)
+                                  else if v =? 9 then skipn 3 (map dv body) else map dv body)%Z).
+  { unfold body'. assert (Em : mem_Z v [3; 4; 5; 6]%Z = ((3 <=? v) && (v <=? 6))%Z).
+    { unfold mem_Z. cbn [existsb]. lia. }
+    rewrite Em. destruct ((3 <=? v) && (v <=? 6))%Z; [symmetry; apply skipn_map|]. destruct (v =? 9)%Z; [symmetry; apply skipn_map|reflexivity]. }
+  rewrite Ebody. reflexivity.
 Qed.
 End German.
